@@ -1035,6 +1035,11 @@ class Oracle:
             return
         grp = st.groups.setdefault(g, {"last": 0, "lastmax": 0, "lastall": 0, "parts": {}})
         lst = grp["parts"].setdefault((t, p), [])
+        # upper bound of the group's last-commit time: as if every commit accepted on arrival was stored.  Taken BEFORE the
+        # replay test below: a position this oracle has seen may no longer be stored (a later commit merged into its slot takes
+        # the slot's position: C02 merge rule, also at min-distance 0 when the later commit's timestamp is lower), and then the
+        # "replay" is stored as an out-of-order commit and does move lastCommit
+        grp["lastall"] = max(grp["lastall"], ts)
         if any(x["order"] == order for x in lst):
             self.stats["dropped:replay"] = self.stats.get("dropped:replay", 0) + 1
             return
